@@ -138,6 +138,12 @@ def run_c07(pid: str, tier: str) -> int:
         events += score_events('reversed', r)
     events += bidscore_events()
     events += auction_contract_events(r, 200 if tier == 'quick' else 3000)
+    from .core import repo_test_events
+    rt = [e for e in repo_test_events(['tests']) if e.get('ev') in ('score', 'bidscore')]
+    for e in rt:
+        e.pop('src', None)
+    chk.extra['repo_test_events'] = len(rt)
+    events += rt
     for e in events:
         chk.count((e['ev'], e['bid'], e['x'], e['xx'], e.get('vul', e.get('vulflag')),
                    e.get('decl'), e['tricks']))
@@ -278,6 +284,12 @@ def run_c16(pid: str, tier: str) -> int:
         tlc.require_clean(res, 'ImpScaleChecks')
     chk.add_tlc(res, 'ASSUME ImpScaleChecks on -6000..6000 (+ Score domain)')
     events = imp_events(tier, r)
+    from .core import repo_test_events
+    rt = [e for e in repo_test_events(['tests']) if e.get('ev') in ('imp', 'imp2')]
+    for e in rt:
+        e.pop('src', None)
+    chk.extra['repo_test_events'] = len(rt)
+    events += rt
     for e in events:
         key = (e['ev'], e.get('d'), e.get('a'), e.get('b'), e.get('sign'), e.get('digits'))
         nz = (e.get('d', 1) != 0) and (e.get('a', 1) + e.get('b', 0) != 0)
